@@ -10,6 +10,7 @@ text and falls on character boundaries.  The renderer part (`Props/C07Render.lea
 -/
 import NaijaVerif.Props.C07Lex
 import NaijaVerif.Props.C07Parse
+import NaijaVerif.Props.C07Render
 
 namespace NaijaVerif.C07
 open NaijaVerif NaijaVerif.Lex NaijaVerif.Parse NaijaVerif.Utf8 NaijaVerif.Props.C07Lex NaijaVerif.C07Parse
@@ -58,6 +59,17 @@ theorem front_end_spans_safe (src : Bytes) (h : ValidUtf8 src) :
     · exact this.1
     · exact this.2 s hs
   · exact spanSane_safe src h s (hdiag d hd s hs)
+
+/-- **C07 (lexer + parser + renderer)**: the whole diagnostic set of the front end can always be
+rendered — `render_ansi` never slices out of range, off a character boundary, or underflows a column —
+for every valid UTF-8 text, whatever the code, message and label texts are. -/
+theorem front_end_diagnostics_render (src file : Bytes) (h : ValidUtf8 src) (code msg : Diag → Bytes)
+    (labelMsg : Diag → Nat → Bytes) :
+    Render.renderAnsi src file ((frontEnd src).2.map (NaijaVerif.Props.C07Render.ofDiag code msg labelMsg)) ≠ none := by
+  apply NaijaVerif.Props.C07Render.c07_render_front_end src file _ code msg labelMsg h
+  intro d hd
+  have hs := (front_end_spans_safe src h).2 d hd
+  exact ⟨hs d.span (by simp [diagSpans]), fun l hl => hs l (by simp [diagSpans, hl])⟩
 
 /-- **Gate**: a text is executed only if the merged diagnostics hold no error — the pipeline's
 decision is a function of the diagnostics alone (`cmd.rs` stops on any parser diagnostic). -/
